@@ -64,6 +64,16 @@ def bool_fact(p, term):
     return out
 
 
+def safe_loc(f, path, *fallbacks):
+    """source location of a body when it exists (for messages only: a private item that was renamed or merged must not
+    make a rule fail because its *location* cannot be printed)"""
+    for x in (path,) + fallbacks:
+        b = f.bodies.get(x)
+        if b is not None:
+            return b.loc()
+    return None
+
+
 def P(name):
     return ("param", name)
 
